@@ -158,3 +158,5 @@ M("c19-origin-inplace", "C19", "plot/map.py", "    xyz = position - origin", "  
 M("c19-hist1d-weights-inplace", "C19", "plot/histogram1d.py", "        layer = parse_layer(layer, bins=bins, weights=weights, **kwargs)", "        layer = parse_layer(layer, bins=bins, weights=weights, **kwargs)\n        if weights is not None:\n            weights.name = 'weights'", "call-level weights Array renamed in place")
 M("c19-scatter-size-inplace", "C19", "plot/scatter.py", "                size = size.to(x.unit)", "                size = size.to(x.unit)\n                size.values[...] = np.abs(size.values)" if False else "                size = size.to(x.unit)\n                size.name = 'size'", "size Array renamed (to() returns self when units agree)")
 M("c19-bins-call-wins", "C19", "plot/parser.py", "    if out.bins is None:\n        out.bins = bins", "    if bins is not None:\n        out.bins = bins", "call-level bins override the layer's")
+M("c17-unfix-vector-inplace", "C17", "core/vector.py", "        for c, xyz in lhs._xyz.items():\n            getattr(xyz, op)(getattr(rhs, c))\n        return lhs\n", "        pass\n", "Vector in-place operators return a new Vector again (stale unit on other references after a second update)")
+M("c17-unfix-vector-alias-copy", "C17", "core/vector.py", "        if _shares_memory(lhs, rhs):\n            rhs = rhs.copy()", "        if False and _shares_memory(lhs, rhs):\n            rhs = rhs.copy()", "operand aliasing a component is not copied before the component-wise update")
